@@ -93,7 +93,7 @@ type input struct {
 	id, vers        uint16
 	pad, padx       int
 	writes          [][]byte
-	close           bool
+	close           []byte // payload of the client's final alert record (0100 = close_notify, empty = none)
 	ops             [][]int
 	cut, chunk, buf int
 }
@@ -105,7 +105,7 @@ func decode(in hv.Val) input {
 	for _, w := range hv.AsList(l[1]) {
 		x.writes = append(x.writes, hv.AsBytes(w))
 	}
-	x.close = hv.AsInt(l[2]) != 0
+	x.close = hv.AsBytes(l[2])
 	for _, o := range hv.AsList(l[3]) {
 		var op []int
 		for _, e := range hv.AsList(o) {
@@ -131,11 +131,24 @@ func protect(x input) []byte {
 func relevantEdit(x input) bool {
 	orig := protect(x)
 	t := tamper(x)
-	if x.close {
+	if terminal(x.close) {
 		return len(t) < len(orig) || string(t[:len(orig)]) != string(orig)
 	}
 	return string(t) != string(orig)
 }
+
+// terminal: the final alert ends the reading (close_notify, fatal or malformed alert), so nothing after it is read
+func terminal(fin []byte) bool {
+	switch len(fin) {
+	case 0:
+		return false
+	case 2:
+		return fin[1] == 0 || fin[0] != 1
+	}
+	return true
+}
+
+var finals = [][]byte{{1, 0}, {1, 0}, {1, 0}, {}, {1, 100}, {2, 40}, {2, 0}, {3, 51}, {1}, {1, 0, 0}, {1, 90}, {2, 20}}
 
 func tamper(x input) []byte {
 	stream := protect(x)
@@ -195,7 +208,6 @@ func genWrite(r *hv.Rng) []byte {
 }
 
 func gen(r *hv.Rng, i int, tier string) (string, hv.Val) {
-	nopsOverride := 1
 	if i < len(matrix) {
 		return genMatrix(matrix[i], i)
 	}
@@ -207,21 +219,19 @@ func gen(r *hv.Rng, i int, tier string) (string, hv.Val) {
 		if x.pad == 2 {
 			x.padx = r.Range(0, 256/bs-1)
 		}
-		if sv.vers == 0x0300 && x.pad == 2 {
-			// SSLv3 does not authenticate padding bytes: edits inside a long padding are not detected
-			// (outside the symbolic model, see props/C42.json); long padding is sent to SSLv3 untampered only
-			nopsOverride = 0
-		}
 	}
 	nw := r.Intn(5)
 	for k := 0; k < nw; k++ {
 		x.writes = append(x.writes, genWrite(r))
 	}
-	x.close = r.Chance(3, 4)
+	x.close = []byte{}
+	if r.Chance(3, 4) {
+		x.close = finals[r.Intn(len(finals))]
+	}
 	recs := splitRecords(protect(x))
 	class := "clean"
 	nops := 0
-	switch r.Intn(8) * nopsOverride {
+	switch r.Intn(8) {
 	case 0:
 	case 1, 2, 3, 4:
 		nops = 1
@@ -361,7 +371,7 @@ func finish(class string, x input) (string, hv.Val) {
 		x.ops, x.cut = nil, -1
 		class = "clean-noop"
 	}
-	if len(x.writes) == 0 && !x.close && len(x.ops) == 0 && x.cut < 0 {
+	if len(x.writes) == 0 && len(x.close) == 0 && len(x.ops) == 0 && x.cut < 0 {
 		class = "triv-empty"
 	}
 	if x.pad != 0 {
@@ -378,7 +388,7 @@ func finish(class string, x input) (string, hv.Val) {
 	}
 	return class, hv.L{
 		hv.LI([]int{int(x.id), int(x.vers), kind, mac, bs, expl, ovh, x.pad, x.padx}),
-		ws, hv.Bool(x.close), ops, hv.I(x.cut), hv.I(x.chunk), hv.I(x.buf)}
+		ws, hv.B(x.close), ops, hv.I(x.cut), hv.I(x.chunk), hv.I(x.buf)}
 }
 
 // ---- structured stream: every (suite, version) x every tamper kind, and every CBC (suite, version) x
@@ -403,7 +413,13 @@ func buildMatrix() {
 			maxx := 256/bs - 1
 			for _, ps := range [][2]int{{1, 0}, {2, 1}, {2, maxx}, {2, maxx - 1}, {3, 0}} {
 				for _, k := range []int{0, 7, 9, 11} {
-					if sv.vers == 0x0300 && ps[0] == 2 && k != 0 {
+					if sv.vers == 0x0300 && ps[0] == 2 && k == 9 {
+						// SSLv3 + long padding: a garbled final all-padding block is accepted with probability
+						// 1/256 (POODLE); instead flip inside the padding (finding 2) and in the block before the
+						// last at the position of the length byte (rejected)
+						for _, k2 := range []int{8, 20, 21} {
+							matrix = append(matrix, matrixCase{sv: sv, kind: k2, pad: ps[0], padx: ps[1]})
+						}
 						continue
 					}
 					matrix = append(matrix, matrixCase{sv: sv, kind: k, pad: ps[0], padx: ps[1]})
@@ -414,11 +430,9 @@ func buildMatrix() {
 }
 
 func genMatrix(mc matrixCase, i int) (string, hv.Val) {
-	x := input{id: mc.sv.id, vers: mc.sv.vers, pad: mc.pad, padx: mc.padx, cut: -1, close: true, buf: 64}
+	x := input{id: mc.sv.id, vers: mc.sv.vers, pad: mc.pad, padx: mc.padx, cut: -1, close: finals[(i*5+(i/nKinds)*7)%len(finals)], buf: 64}
 	x.writes = [][]byte{[]byte("hello"), []byte("integrity!!"), []byte("x")}
-	if i%3 == 1 {
-		x.close = false
-	}
+	_, _, bsz, _, _, _, _ := bfe_tls.VerifC42Params(mc.sv.id, mc.sv.vers)
 	recs := splitRecords(protect(x))
 	n := len(recs)
 	t := 1 // target record: the second one, so that a genuine prefix is delivered first
@@ -429,7 +443,7 @@ func genMatrix(mc matrixCase, i int) (string, hv.Val) {
 	}
 	names := []string{"clean", "flip-type", "flip-vers-hi", "flip-vers-lo", "flip-len-hi", "flip-len-lo", "flip-len-lo1",
 		"flip-body-first", "flip-body-mid", "flip-body-last", "swap", "replay", "replay-later", "drop", "drop-last",
-		"forge-close", "trunc", "cut-boundary", "cut-header", "cut-body"}
+		"forge-close", "trunc", "cut-boundary", "cut-header", "cut-body", "flip-pad-inner", "flip-pad-lenbyte"}
 	switch mc.kind {
 	case 1:
 		x.ops = [][]int{{1, t, 0, 2}} // 23 -> 21: application data relabelled as alert
@@ -469,6 +483,10 @@ func genMatrix(mc matrixCase, i int) (string, hv.Val) {
 		x.cut = len(recs[0]) + len(recs[1]) + 1 + i%4
 	case 19:
 		x.cut = len(recs[0]) + len(recs[1]) + 5 + i%bl
+	case 20: // last byte of the third block from the end: garbles that block, flips a bit in the next one
+		x.ops = [][]int{{1, t, 5 + bl - 2*bsz - 1, 1 << uint(i%8)}}
+	case 21: // last byte of the block before the final one: flips the padding length byte
+		x.ops = [][]int{{1, t, 5 + bl - bsz - 1, 1 << uint(i%8)}}
 	}
 	x.chunk = []int{0, 1, 7}[i%3]
 	return finish("m-"+names[mc.kind], x)
